@@ -17,7 +17,7 @@ LEVEL_TEXT = (
     'trace uses the caller\'s seed. Wall-clock bounds and "reaches the target when more states exist" '
     'are not decided.')
 
-FLOORS = {'C12-R1': 24, 'C12-R2': 6, 'C12-R3': 8, 'C12-R4': 3, 'C05-R1': 6, 'C05-R10': 2, 'C12-R6': 4, 'C12-R7': 4}
+FLOORS = {'C12-R1': 24, 'C12-R2': 6, 'C12-R3': 8, 'C12-R4': 3, 'C05-R1': 6, 'C05-R10': 2, 'C12-R6': 4, 'C12-R7': 4, 'C01-R6': 12}
 
 OPTIONS = ('finish_when', 'target_state_count', 'target_max_depth', 'timeout', 'visitor', 'thread_count')
 
@@ -472,3 +472,16 @@ def run(ctx):
     r6_shutdown_observed(ctx, F)
     with ctx.rule('C12-R7', 'SIM'):
         r7_seed(ctx, F)
+    extra_rules(ctx, F)
+
+
+def extra_rules(ctx, F):
+    """clauses of C12 that rest on rules of neighbouring properties"""
+    import c01
+    from checkers import CB, EXHAUSTIVE
+    # target_state_count is compared with state_count: the counter must count generated in-boundary states
+    ctx.doc('C01-R6', 'state_count incremented (by 1) once per in-boundary successor before it is marked visited, '
+                      'initialised from the filtered initial states')
+    for strat in EXHAUSTIVE:
+        with ctx.rule('C01-R6', strat):
+            c01.r6_counters(ctx, F, CB(F, strat))
